@@ -8,17 +8,25 @@ use crate::model::{Cfg, Sym};
 use std::collections::{BTreeMap, HashMap};
 
 /// Lookahead sets are bit sets over terminal indices; bit `cfg.nt` is end of input.
-pub const MAX_T: usize = 62;
+pub const MAX_T: usize = 126;
+
+/// A set of lookaheads (terminal indices and end of input) as a bit set.
+pub type La = u128;
+
+#[inline]
+pub fn bit(i: usize) -> La {
+    (1 as La) << i
+}
 
 #[derive(Clone, Debug)]
 pub struct First {
-    pub first: Vec<u64>,
+    pub first: Vec<La>,
     pub nullable: Vec<bool>,
     pub rounds: usize,
 }
 
 pub fn first_sets(cfg: &Cfg) -> First {
-    let mut first = vec![0u64; cfg.nn];
+    let mut first: Vec<La> = vec![0; cfg.nn];
     let mut nullable = vec![false; cfg.nn];
     let mut rounds = 0;
     loop {
@@ -26,11 +34,11 @@ pub fn first_sets(cfg: &Cfg) -> First {
         let mut changed = false;
         for r in &cfg.rules {
             let mut all_nullable = true;
-            let mut add = 0u64;
+            let mut add: La = 0;
             for s in &r.rhs {
                 match s {
                     Sym::T(t) => {
-                        add |= 1 << t;
+                        add |= bit(*t);
                         all_nullable = false;
                         break;
                     }
@@ -64,11 +72,11 @@ pub fn first_sets(cfg: &Cfg) -> First {
 }
 
 /// FIRST of a symbol string followed by the lookahead set `la`.
-pub fn first_of_seq(seq: &[Sym], la: u64, f: &First) -> u64 {
-    let mut out = 0u64;
+pub fn first_of_seq(seq: &[Sym], la: La, f: &First) -> La {
+    let mut out: La = 0;
     for s in seq {
         match s {
-            Sym::T(t) => return out | (1 << t),
+            Sym::T(t) => return out | bit(*t),
             Sym::N(n) => {
                 out |= f.first[*n];
                 if !f.nullable[*n] {
@@ -88,7 +96,7 @@ pub struct Core {
 }
 
 /// Sorted by core; every lookahead set is non-empty.
-pub type ItemSet = Vec<(Core, u64)>;
+pub type ItemSet = Vec<(Core, La)>;
 
 pub struct Ctx<'a> {
     pub cfg: &'a Cfg,
@@ -123,15 +131,15 @@ impl<'a> Ctx<'a> {
         }
     }
 
-    pub fn eof_bit(&self) -> u64 {
-        1 << self.cfg.nt
+    pub fn eof_bit(&self) -> La {
+        bit(self.cfg.nt)
     }
 
     /// LR(1) closure, set-valued: the union of the item-wise textbook closure.
     /// An item exists only with a non-empty lookahead set, and only existing
     /// items are expanded.
-    pub fn closure(&self, kernel: &[(Core, u64)], steps: &mut u64) -> ItemSet {
-        let mut map: BTreeMap<Core, u64> = BTreeMap::new();
+    pub fn closure(&self, kernel: &[(Core, La)], steps: &mut u64) -> ItemSet {
+        let mut map: BTreeMap<Core, La> = BTreeMap::new();
         let mut work: Vec<Core> = vec![];
         for (c, la) in kernel {
             if *la == 0 {
@@ -185,7 +193,7 @@ impl<'a> Ctx<'a> {
     }
 
     pub fn gotos(&self, st: &ItemSet, steps: &mut u64) -> BTreeMap<Sym, ItemSet> {
-        let mut kernels: BTreeMap<Sym, Vec<(Core, u64)>> = BTreeMap::new();
+        let mut kernels: BTreeMap<Sym, Vec<(Core, La)>> = BTreeMap::new();
         for (c, la) in st {
             let rhs = self.rhs(c.rule);
             if (c.dot as usize) < rhs.len() {
@@ -263,7 +271,7 @@ pub fn merge_by_core(lr1: &Automaton) -> (Automaton, Vec<usize>) {
             None => {
                 let k = states.len();
                 index.insert(cores, k);
-                states.push(st.iter().map(|(c, _)| (*c, 0u64)).collect());
+                states.push(st.iter().map(|(c, _)| (*c, 0 as La)).collect());
                 k
             }
         };
@@ -317,7 +325,7 @@ pub fn action_sets(ctx: &Ctx, a: &Automaton) -> Vec<Vec<Vec<Act>>> {
                 row[nt].push(Act::Accept);
             } else {
                 for l in 0..=nt {
-                    if la & (1 << l) != 0 {
+                    if la & bit(l) != 0 {
                         row[l].push(Act::Reduce(c.rule as usize));
                     }
                 }
@@ -423,7 +431,7 @@ pub fn lr_parse(
                 if la < nt && rhs[d] == Sym::T(la) {
                     acts.push(Act::Shift(a.trans[s][&Sym::T(la)]));
                 }
-            } else if las & (1 << la) != 0 {
+            } else if las & bit(la) != 0 {
                 if c.rule == ctx.aug() {
                     acts.push(Act::Accept);
                 } else {
@@ -555,9 +563,9 @@ pub fn analyse(cfg: &Cfg) -> Analysis {
     }
 }
 
-pub fn follow_sets(ctx: &Ctx) -> Vec<u64> {
+pub fn follow_sets(ctx: &Ctx) -> Vec<La> {
     let cfg = ctx.cfg;
-    let mut follow = vec![0u64; cfg.nn];
+    let mut follow: Vec<La> = vec![0; cfg.nn];
     follow[cfg.start] |= ctx.eof_bit();
     loop {
         let mut changed = false;
